@@ -42,11 +42,11 @@ struct Program {
     delay_permille: u32,
 }
 
-const UNIQUE_CLASSES: [&str; 8] = ["P8", "PB", "L40", "LS", "S4", "L16", "N8", "N40"];
-const ALL_CLASSES: [&str; 12] = ["P8", "PB", "L40", "LS", "S4", "L16", "S1", "Z0", "ZA", "N4", "N8", "N40"];
+const UNIQUE_CLASSES: [&str; 9] = ["P8", "PB", "L40", "LS", "S4", "L16", "N8", "N40", "A32"];
+const ALL_CLASSES: [&str; 13] = ["P8", "PB", "L40", "LS", "S4", "L16", "S1", "Z0", "ZA", "N4", "N8", "N40", "A32"];
 
 fn gen_short(rng: &mut Rng, miri: bool, classes: &[&'static str]) -> Program {
-    let cap = *rng.pick(&[Some(0), Some(0), Some(1), Some(2), None]);
+    let cap = *rng.pick(&[Some(0), Some(0), Some(1), Some(2), None, Some(3)]);
     let class = *rng.pick(classes);
     let nth = if miri { 2 + rng.below(2) } else { 2 + rng.below(3) } as usize;
     let mut threads = Vec::new();
